@@ -149,6 +149,7 @@ inductive NameExpr where
   | none
   | bytes (b : Bytes)
   | str (b : Bytes)       -- a `String`, as its UTF-8 bytes
+  | hash (b : Bytes)      -- a `Hash`: what a policy definition lowers to
   | other                 -- any other expression: treated like `None`
   deriving DecidableEq, Repr
 
@@ -160,9 +161,10 @@ structure ConstAsset where
 
 namespace Assets
 
-/-- `expect_constant_policy`: `Bytes` only. -/
+/-- `expect_constant_policy`: `Bytes`, or the `Hash` a policy definition lowers to. -/
 def constPolicy : NameExpr → Option Bytes
   | .bytes b => some b
+  | .hash b => some b
   | _ => none
 
 /-- `expect_constant_name`: `Bytes` or `String`. -/
